@@ -80,10 +80,17 @@ type opts struct {
 	Upper   string
 	Prefix  string
 	Seek    string // "" = Rewind
+	// Prior is an action performed on the SAME iterator before the positioning above (iterator reuse):
+	// "" none, "seek:<target>", "rewind", "end" (Rewind + Next until invalid). It must not change the result.
+	Prior string `json:",omitempty"`
 }
 
 func (o opts) String() string {
-	return fmt.Sprintf("%s key=%q rev=%v keyonly=%v allv=%v lower=%q upper=%q prefix=%q seek=%q", o.API, o.Key, o.Reverse, o.KeyOnly, o.AllVers, o.Lower, o.Upper, o.Prefix, o.Seek)
+	s := fmt.Sprintf("%s key=%q rev=%v keyonly=%v allv=%v lower=%q upper=%q prefix=%q seek=%q", o.API, o.Key, o.Reverse, o.KeyOnly, o.AllVers, o.Lower, o.Upper, o.Prefix, o.Seek)
+	if o.Prior != "" {
+		s += fmt.Sprintf(" after-on-same-iterator=%q", o.Prior)
+	}
+	return s
 }
 
 // ---------------------------------------------------------------------------------------
@@ -483,6 +490,7 @@ func (w *world) run(s *snap, o opts) (got []item, fault string) {
 		it = s.txn.NewIterator(io)
 	}
 	defer it.Close()
+	doPrior(o, it.Rewind, func(k []byte) { it.Seek(k) }, it.Next, it.Valid)
 	if o.Seek == "" {
 		it.Rewind()
 	} else {
@@ -510,6 +518,22 @@ func (w *world) run(s *snap, o opts) (got []item, fault string) {
 	return got, ""
 }
 
+// doPrior performs the reuse action of o on the iterator that is about to be positioned (the two iterator kinds
+// differ in the result type of Seek, hence the function values).
+func doPrior(o opts, rewind func(), seek func([]byte), next func(), valid func() bool) {
+	switch {
+	case o.Prior == "rewind":
+		rewind()
+	case o.Prior == "end":
+		rewind()
+		for n := 0; valid() && n <= maxItems; n++ {
+			next()
+		}
+	case strings.HasPrefix(o.Prior, "seek:"):
+		seek([]byte(o.Prior[5:]))
+	}
+}
+
 func (w *world) runDB(o opts) (got []item, fault string) {
 	uo := &utils.Options{IsAsc: !o.Reverse, OnlyUseKey: o.KeyOnly}
 	if o.Lower != "" {
@@ -523,6 +547,7 @@ func (w *world) runDB(o opts) (got []item, fault string) {
 	}
 	it := w.hd.DB.NewIterator(uo)
 	defer it.Close()
+	doPrior(o, it.Rewind, it.Seek, it.Next, it.Valid)
 	if o.Seek == "" {
 		it.Rewind()
 	} else {
@@ -820,6 +845,22 @@ func sigFor0(o opts, s *snap, reason string) string {
 	if s != nil && len(s.pend) > 0 {
 		sig += " pending"
 	}
+	if o.Prior != "" {
+		kind := o.Prior
+		if i := strings.IndexByte(kind, ':'); i > 0 {
+			kind = kind[:i]
+			t := o.Prior[i+1:]
+			switch {
+			case o.Lower != "" && t < o.Lower:
+				kind += "-below-lower"
+			case o.Upper != "" && t >= o.Upper:
+				kind += "-at-or-above-upper"
+			default:
+				kind += "-in-range"
+			}
+		}
+		sig += " reused-after-" + kind
+	}
 	return sig + " " + reason
 }
 
@@ -974,6 +1015,24 @@ func (rn *runner) optionSpace(h hist, s *snap) []opts {
 	return out
 }
 
+// reusePriors: prior actions on the same iterator for a bounded configuration: a seek inside the bounds, one
+// below the lower bound, one at and one beyond the upper bound, a Rewind, and a scan to the end.
+func reusePriors(o opts) []string {
+	out := []string{"rewind", "end"}
+	in := o.Lower
+	if in == "" {
+		in = "A"
+	}
+	out = append(out, "seek:"+in)
+	if o.Lower != "" {
+		out = append(out, "seek:A")
+	}
+	if o.Upper != "" {
+		out = append(out, "seek:"+o.Upper)
+	}
+	return append(out, "seek:c")
+}
+
 type replayObj struct {
 	Hist    hist
 	Snap    string
@@ -996,8 +1055,9 @@ func (rn *runner) check(w *world, s *snap, pendSpec []string, keyOnlyPhase bool)
 	}
 	vw := w.m.viewOf(ts, pend)
 	plainFull := vw.expect(opts{API: "txn"})
-	var runs, shaped int64
+	var runs, shaped, reuseRuns int64
 	defer func() {
+		p.Add("reuse_runs", reuseRuns)
 		p.Add("iterator_runs", runs)
 		p.Add("runs_where_options_shape_the_result", shaped)
 	}()
@@ -1017,6 +1077,32 @@ func (rn *runner) check(w *world, s *snap, pendSpec []string, keyOnlyPhase bool)
 			if sig, d := w.integrity(); sig != "" {
 				rn.report(w, s, pendSpec, o, sigFor(o, s, "keyonly-scan-corrupts-stored-data"), fmt.Sprintf("after the key-only scan below (ValueCopy called on every item) stored data that were intact before are damaged: %s\n  %s\n  history: %s\n  scan returned: %s", d, o, w.h, fmtItems(got)))
 				return true
+			}
+		}
+		// iterator reuse: the same positioning after another action on the SAME iterator must give the same result.
+		// Only a result that is wrong AND differs from the fresh-iterator result is reported here (a defect that a
+		// fresh iterator shows as well is reported once, by the fresh run below).
+		if !o.KeyOnly && !o.AllVers && o.Prefix == "" && o.API != "key" && (o.Lower != "" || o.Upper != "") && o.Prior == "" && (o.Seek == "" || o.Seek == o.Lower) {
+			for _, pr := range reusePriors(o) {
+				o2 := o
+				o2.Prior = pr
+				got2, fault2 := w.run(s, o2)
+				runs++
+				reuseRuns++
+				if fault2 == "" && (sameItems(got2, want) || sameItems(got2, got)) {
+					continue
+				}
+				reason := fault2
+				if fault2 == "" {
+					reason = w.classify(o2, s, want, got2)
+				} else if i := strings.IndexByte(fault2, ':'); i > 0 {
+					reason = fault2[:i]
+				}
+				desc := fmt.Sprintf("%s\n  history: %s\n  snapshot: %s (read ts %d)\n  got:  %s\n  want: %s\n  a fresh iterator returns: %s", o2, w.h, snapName(s), ts, fmtItems(got2), fmtItems(want), fmtItems(got))
+				if fault2 != "" {
+					desc = fault2 + "\n  " + desc
+				}
+				rn.report(w, s, pendSpec, o2, sigFor(o2, s, reason), desc)
 			}
 		}
 		if fault == "" && sameItems(got, want) {
